@@ -39,6 +39,7 @@ type c03Case struct {
 	Ticks      [][]int    `json:"ticks"`       // per read tick, per group: how many further packet positions arrive (lost ones included)
 	Lost       [][]int    `json:"lost"`        // per group: lost run-phase positions (0-based, after the sampling phase)
 	Interleave bool       `json:"interleave"`  // packets of different groups alternate within a tick (else group after group)
+	NoTS       bool       `json:"no_timestamps,omitempty"` // single group only: the packets carry no timestamp TLV (legal: the rate is then not measured)
 	Ring       bool       `json:"ring,omitempty"` // the producers are real AbacoRings over real shared-memory ring buffers the harness writes into
 	Slot       int        `json:"slot,omitempty"`       // ring mode: packet (slot) size announced in the ring description (0: 8192)
 	PriorSlot  int        `json:"prior_slot,omitempty"` // ring mode: the same AbacoRing objects were started and stopped before, on rings with this slot size
@@ -172,7 +173,9 @@ func c03MakePacket(c *c03Case, gi int, a int) (*packets.Packet, error) {
 	const rate = 1e8
 	const countsPerFrame = 1000 // 100 kHz sampling
 	t := uint64(5000 + int64(a)*int64(c.F)*countsPerFrame)
-	p.SetTimestamp(packets.MakeTimestamp(uint16(t>>32), uint32(t), rate))
+	if !c.NoTS || len(c.Groups) > 1 {
+		p.SetTimestamp(packets.MakeTimestamp(uint16(t>>32), uint32(t), rate))
+	}
 	dims := []int16{int16(g.Nchan)}
 	if g.TwoD {
 		dims = []int16{2, int16(g.Nchan / 2)}
@@ -589,6 +592,9 @@ func c03Run(c c03Case) (v vVerdict) {
 	if ng > 1 {
 		v.Classes = append(v.Classes, "multi-group")
 	}
+	if c.NoTS && ng == 1 {
+		v.Classes = append(v.Classes, "packets-without-timestamps")
+	}
 	if ringMode {
 		v.Classes = append(v.Classes, "real-ring-buffers")
 		if c.PriorSlot != 0 && c.PriorSlot != slotSize {
@@ -619,6 +625,7 @@ func c03Gen(t *rapid.T) c03Case {
 	c.Seed = rapid.IntRange(0, 1<<20).Draw(t, "seed")
 	c.Interleave = rapid.Bool().Draw(t, "interleave")
 	c.Ring = rapid.IntRange(0, 3).Draw(t, "ring") == 0
+	c.NoTS = ng == 1 && rapid.IntRange(0, 2).Draw(t, "nots") == 0
 	if c.Ring {
 		c.Slot = rapid.SampledFrom([]int{0, 0, 4096, 16384}).Draw(t, "slot")
 		c.PriorSlot = rapid.SampledFrom([]int{0, 0, 8192, 4096, 16384}).Draw(t, "priorslot")
